@@ -591,9 +591,19 @@ def insert_obligation(o, tier, seed):
         ctx = e2.context(True)
     except RuntimeError as e:
         return [Outcome(o["id"], "mirsym", "inconclusive", str(e))]
-    shapes = SHAPES_THOROUGH if tier == "thorough" else SHAPES_QUICK
-    max_new = 3 if tier == "thorough" else 2
-    r = run_insert(ctx, shapes, max_new, time.time() + (2400 if tier == "thorough" else 600))
+    if tier == "thorough":
+        # depth-1 shapes with up to 3 new ids, depth-2 shapes with up to 2 (3 new ids below a depth-2
+        # shape: z3 gives no verdict on some feasibility queries within its per-query limit -- measured)
+        r = run_insert(ctx, SHAPES_QUICK, 3, time.time() + 1500)
+        r2 = run_insert(ctx, [sh for sh in SHAPES_THOROUGH if sh not in SHAPES_QUICK], 2, time.time() + 1500)
+        for k in ("paths", "queries"):
+            r[k] += r2[k]
+        r["solver_s"] = round(r["solver_s"] + r2["solver_s"], 2)
+        for k in ("violations", "unknown", "shapes"):
+            r[k] += r2[k]
+        r["encoded"] = sorted(set(r["encoded"]) | set(r2["encoded"]))
+    else:
+        r = run_insert(ctx, SHAPES_QUICK, 2, time.time() + 600)
     return outcomes_from(o, r, "insert", native, e2, Outcome)
 
 
